@@ -1188,7 +1188,7 @@ def gen_lexical(lines):
     lines.append("def overflowExp : Int := %d" % (int(m.group(2), 0) if m else 0))
     ashapes = [
         ("lexical.algorithm.errors", "iferrors>0{errors+=1;}errors+=u64::error_halfscale();letshift=fp.normalize();errors<<=shift;u64::error_is_accurate::<F>(errors,fp)"),
-        ("lexical.algorithm.truncated", "iftruncated{errors+=u64::error_halfscale();}"),
+        ("lexical.algorithm.truncated", "iftruncated{errors+=u64::error_scale();}"),
         ("lexical.algorithm.index", "letexponent=exponent.saturating_add(powers.bias);letsmall_index=exponent%powers.step;letlarge_index=exponent/powers.step;"),
         ("lexical.algorithm.fast", "}elseifexponent>=0&&exponent<=max_exp+shift_exp{letsmall_powers=POW10_64;letshift=exponent-max_exp;"),
     ]
@@ -1197,7 +1197,7 @@ def gen_lexical(lines):
     bh = re.sub(r"\s+", "", strip_rust_comments(src("lexical/bhcomp.rs")))
     bshapes = [
         ("lexical.bhcomp.step", "letsmall_powers=POW10_LIMB;letstep=small_powers.len()-2;letmax_digits=F::MAX_DIGITS-1;"),
-        ("lexical.bhcomp.sticky", "ifi<integer.len()+fraction.len(){result.imul_small(10);result.iadd_small(1);}"),
+        ("lexical.bhcomp.sticky", "ifi<integer.len()+fraction.len(){result.imul_small(10);ifinteger.iter().chain(fraction).skip(i).any(|&digit|digit!=b'0'){result.iadd_small(1);}}"),
         ("lexical.bhcomp.count", "letcount=F::MAX_DIGITS.min(integer_digits+fraction_digits-digits_start);letscaled_exponent=sci_exp+1-countasi32;"),
         ("lexical.bhcomp.bh", "ExtendedFloat{mant:(b.mant<<1)+1,exp:b.exp-1,}"),
         ("lexical.bhcomp.round", "ifis_halfway&&is_truncated{is_above=true;is_halfway=false;}tie_even(fp,is_above,is_halfway);"),
